@@ -28,7 +28,8 @@ def validate_check_digit(card_number: str) -> str:
     :return: None
     :raises AssertionError: Check digit is not valid
     """
-    assert calculate_check_digit(card_number[0:-1]) == card_number[-1]
+    if calculate_check_digit(card_number[0:-1]) != card_number[-1]:
+        raise AssertionError('check digit is not valid')
 
 
 def add_check_digit(card_number: str) -> str:
